@@ -57,7 +57,7 @@ def good_sargs(rng):
     if k == 2: return ('int', rng.choice([1, 2, 22, 31, 34, 39, 4, 21, 24, 42, 3, 10, 12, 53, 77, 256, 90, 97, 100, 107, 49, 51, 52, 54, 55, 59, 26, 50]))
     if k == 3: return ('str', rng.choice(['31', '1;31', '38;5;214', '4;58;2;1;2;3', '38;2;1;2;3;1', '22', '01;034']))
     if k == 4: return ('str', rng.choice(['[38;5;214', '[1', '[31', '[1;31', '[38;5;300', '[ 1', '[22', '[10', '[1 ', '[ 38;5;200',
-                                          '[48 ;2;1;2;3', '[ 31 ; 1', '[\t4', '[01', '[4 ;58;5; 9', '[[1', '[[[38;5;1', '[[']))
+                                          '[48 ;2;1;2;3', '[ 31 ; 1', '[\t4', '[01', '[4 ;58;5; 9', '[[1', '[[[38;5;1', '[[', '[38;5;1\u00e9', '[\u00e91', '[31;', '[1;.5', '[38;5;-1', '[4;:3']))
     if k == 5: return ('str', rng.choice(['rgb(1,2,3)', 'bg_rgb(0x102030)', 'ul_color256(9)', 'dul_rgb(300, 0, 5)',
                                           'fg_colour256(0x10)', 'rgb([1, 2, 3])', 'color256(214)']))
     if k == 6: return ('obj', rng.choice(['1', '31', '34', '1;31', '38;5;214', '38;5;300', '22', '4', '+1', '2;', '10', '\u00b2', '1;\u2460']))
@@ -159,12 +159,15 @@ class Runner:
                     if q < 0.45: ps.append(str(rng.choice([1, 2, 3, 4, 21, 22, 24, 31, 34, 39, 42, 49, 10, 12, 53, 55, 9, 29])))
                     elif q < 0.55: ps.append('0')
                     elif q < 0.62: ps.append('')
-                    elif q < 0.72: ps.append('38;5;%d' % rng.choice([0, 9, 255, 256, 300]))
-                    elif q < 0.80: ps.append('%d;2;%d;%d;%d' % (rng.choice([38, 48, 58]), rng.choice([0, 255, 256]), rng.randrange(256), rng.randrange(256)))
+                    elif q < 0.72: ps.append('%d;5;%d' % (rng.choice([38, 38, 48, 58]), rng.choice([0, 9, 255, 256, 300, 38, 48, 58, 5, 2])))
+                    elif q < 0.80: ps.append('%d;2;%d;%d;%d' % (rng.choice([38, 48, 58]), rng.choice([0, 255, 256, 38, 58]), rng.choice([rng.randrange(256), 38, 48, 2, 5]), rng.choice([rng.randrange(256), 2, 5, 58])))
                     elif q < 0.86: ps.append(rng.choice(['38', '48;5', '58;2;1', '38;7', '38;2;1;2']))
                     elif q < 0.92: ps.append(str(rng.choice([77, 256, 1000, 56, 60])))
-                    elif q < 0.96: ps.append(rng.choice([' 1', '1 ', '01', '031']))
+                    elif q < 0.96: ps.append(rng.choice([' 1', '1 ', '01', '031', '04', '044', '023', '00', '000']))
                     else: ps.append(rng.choice(['+1', 'x', '1:2', '?25', '-1', '1_0', '\u00b2', '\u2460']))
+                if rng.random() < 0.04:
+                    # one long sequence: more parameters than any reasonable cap, the ones that matter at the end
+                    ps = [str(rng.choice([1, 3, 4, 22, 23, 24, 39, 49])) for _ in range(rng.randint(30, 40))] + ps
                 out += '\x1b[' + ';'.join(ps) + 'm'
             elif r < 0.85:
                 out += rng.choice(['\x1b[2J', '\x1b[1;2H', '\x1b[', '\x1b[1;3', '\x1b', '\x1b[?25l', '\x1b[3~', '\x1b[15~', '\x9b1m', '\x1b[1M'])
@@ -975,7 +978,7 @@ class Runner:
     def spec(self):
         rng = self.rng
         if rng.random() < 0.12:
-            return rng.choice(['x', '<<5', '5:nope', '+5', ' 5', 'a+b', ':-1', '^^', '<+5', '> 5', '1.5', 'ab<5', '\n', 'x<5\n', '5\n', ':\n', '>5:red\n'])
+            return rng.choice(['x', '<<5', '5:nope', '+5', ' 5', 'a+b', ':-1', '^^', '<+5', '> 5', '1.5', 'ab<5', '\n', 'x<5\n', '5\n', ':\n', '>5:red\n', '>6x', '*>6abc', '*->6.2', '>6 :bold', '<6x', '^6 ', '6x', '>6>', '*<6:red:blue'])
         fill = rng.choice(['', '', ' ', ':', '+', '-', '0', '7', '*', '<', 'é'])
         sign = rng.choice(['', '', '+', '-'])
         al = rng.choice(['<', '>', '^', ''])
@@ -1564,11 +1567,25 @@ class Runner:
             if r < 0.05: fmt = [bad_sargs(rng)]
             elif r < 0.10: fmt = [good_sargs(rng), bad_sargs(rng)]        # a valid specifier before an invalid one: all or nothing
             elif r < 0.13: fmt = [('list', [('int', 1), ('int', 31)]), ('list', [('int', 38), ('int', 5), ('int', 214)])]
+            elif r < 0.18: fmt = rng.choice([[('int', 38), ('int', 5), ('int', 214)], [('str', 'bold'), ('int', 38), ('int', 5), ('int', 214)],
+                                             [('str', '38'), ('str', '5'), ('str', '9')], [('int', 4), ('int', 58), ('int', 2), ('int', 1), ('int', 2), ('int', 3)]])
         if un and rng.random() < 0.1:
             fmt = [('list', [('int', 1), ('int', 31)])]
+        if regex and rng.random() < 0.06:
+            pat = rng.choice(['g(', '(x', '[1', 'a)', '*a', 'a{2', '(?P<n', '\\'])
         try:
             spans = [(m.start(), m.end()) for m in _re.finditer(pat if regex else _re.escape(pat), t, 0 if mc else _re.IGNORECASE)]
         except _re.error:
+            # not a regular expression: `re` refuses it, and so must the method — nothing is formatted
+            pre = O.Snap(x)
+            args = [P.build_sarg(f, self.mod) for f in fmt if f is not None] or ['bold']
+            r_ = self.call(lambda: x.unformat_matching(pat, regex=True, match_case=mc) if un else x.format_matching(pat, *args, regex=True, match_case=mc, count=count))
+            v_ = []
+            if not (r_[0] == 'err' and isinstance(r_[1], _re.error)):
+                v_.append(('C16', 'matching_eq_fold', 'regex=True with %r, which re rejects: outcome %r instead of re.error' % (pat, r_[1] if r_[0] == 'err' else 'ok')))
+            if not pre.same_as(O.Snap(x)):
+                v_.append(('C16', 'matching_eq_fold', 'regex=True with %r, which re rejects: the value changed' % (pat,)))
+            self.emit('noop', None, None, 'matching with an invalid regex %r' % pat, v_)
             return
         ids = P.InIds()
         sp = [count, len(spans)] + [v for se in spans for v in se]
